@@ -92,6 +92,12 @@ class FileResolver:
             for part in path.parts[:-1]:
                 if self._exclude_spec.match_file(part + "/"):
                     return False
+            # Check the tool ignore file (e.g. `.flowmarkignore`) that applies to the file
+            tool_ignore = self._get_tool_ignore(path.parent)
+            if tool_ignore:
+                ignore_prefix = self._tool_ignore_prefix(path.parent, tool_ignore)
+                if tool_ignore[1].match_file(ignore_prefix + path.name):
+                    return False
         if self._exceeds_max_size(path):
             return False
         return True
